@@ -3,7 +3,7 @@ From Coq Require Import List ZArith Bool Arith Lia.
 Import ListNotations.
 Require Import Verif.gen.Consts_trie Verif.MapTrieModel Verif.MapTrieSpec Verif.MapTrieProofs Verif.MapTrieProofs2
                Verif.MapTrieIter Verif.MapTrieIds Verif.MapTrieIter3 Verif.MapTrieIter4 Verif.MapTrieIter6
-               Verif.MapTrieSafe1 Verif.MapTrieSafe2 Verif.MapTrieSafe3 Verif.MapTrieSafe4.
+               Verif.MapTrieSafe1 Verif.MapTrieSafe2 Verif.MapTrieSafe3 Verif.MapTrieSafe4 Verif.MapTrieView.
 
 Lemma get_at_upd_other : forall p q n g tn, p <> q -> get_at n q = Some tn ->
   exists tn', get_at (upd_t n p g) q = Some tn' /\ t_info tn' = t_info tn.
@@ -37,7 +37,8 @@ Proof. intros. unfold on_id. simpl. rewrite H. reflexivity. Qed.
 
 Lemma saf_iter_next : forall t h it, SafT t -> iters_get (t_iters t) h = Some it ->
   exists r it' kv evs, iter_next FX_ALL (t_root t) it = Ok (r, it', kv, evs) /\
-                       Saf r (iters_set (t_iters t) h it') (t_next t).
+                       Saf r (iters_set (t_iters t) h it') (t_next t) /\
+                       forall q, dview (obs_t r q) = dview (obs_t (t_root t) q).
 Proof.
   intros t h it HS G. unfold SafT in HS. pose proof (get_in _ _ _ G) as Hin.
   destruct (sf_plain _ _ _ HS _ _ Hin) as [PN PR].
@@ -57,7 +58,7 @@ Proof.
   destruct (sf_ids _ _ _ HS) as [U [_ [H0 _]]].
   assert (FR : find_t r 0 = Some []) by (pose proof (find_root r) as X; rewrite H0 in X; exact X).
   unfold iter_next. destruct (it_n it) as [pid|] eqn:N.
-  2:{ exists r, it, None, []. split; auto. destruct (SETP it PN PR) as [A B].
+  2:{ exists r, it, None, []. split; auto. split; [|reflexivity]. destruct (SETP it PN PR) as [A B].
       apply saf_weaken with (its := its); auto. intros id _. rewrite parked_set_same; auto. }
   (* the node the iterator stands on *)
   assert (FP : exists pp tnp, find_t r pid = Some pp /\ get_at r pp = Some tnp /\ n_id (t_info tnp) = pid /\
@@ -75,18 +76,21 @@ Proof.
   unfold node_next. rewrite F, PR, FR. cbn [strip_prefix get_at].
   (* leaving pp: the tree after the deref, under the table without h *)
   assert (LEAVE : forall r1 tnp1, Saf r1 mid next -> get_at r1 pp = Some tnp1 -> t_info tnp1 = t_info tnp ->
-            Saf (fst (node_deref r1 pp)) mid next).
+            Saf (fst (node_deref r1 pp)) mid next /\
+            forall q, dview (obs_t (fst (node_deref r1 pp)) q) = dview (obs_t r1 q)).
   { intros r1 tnp1 S1 G1 T1. destruct (Nat.eq_dec pid 0) as [e|e].
     - apply Z0 in e. subst pp. unfold node_deref. simpl in *. inversion G1; subst tnp1.
       destruct r1 as [i1 s1 f1]. simpl in *. pose proof (sf_hval _ _ _ S1) as HV. simpl in HV.
-      unfold alive_i. rewrite HV. exact S1.
+      unfold alive_i. rewrite HV. split; [exact S1|reflexivity].
     - assert (Hpp : pp <> []) by (intro X; apply Z0 in X; contradiction).
       destruct (pa_real _ _ _ _ _ HS Gp Hpp) as [PAi _]. rewrite Eip in PAi.
       pose proof (all_get_at _ _ _ _ (sf_wf _ _ _ HS) Gp) as [Wa _].
       pose proof (parked_del _ _ _ pid G) as X. unfold on_id in X. simpl in X. rewrite N, Nat.eqb_refl in X. fold mid in X.
-      apply saf_deref with (tn := tnp1); auto.
-      + rewrite T1. intro V. destruct (Wa V) as [_ [R0 _]]. lia.
-      + rewrite T1, Eip. lia. }
+      split.
+      + apply saf_deref with (tn := tnp1); auto.
+        * rewrite T1. intro V. destruct (Wa V) as [_ [R0 _]]. lia.
+        * rewrite T1, Eip. lia.
+      + intro q. apply deref_view with (tn := tnp1); auto; [apply (sf_wf _ _ _ S1)|]. rewrite T1. intro R1. lia. }
   pose proof (proj1 next_spec r pp) as NS.
   destruct (next_t r pp) as [pn|].
   - (* there is a next node *)
@@ -106,15 +110,16 @@ Proof.
     assert (S1m : Saf (upd_t r pn inc) mid next).
     { apply saf_weaken with (its := its); auto. intros id _. pose proof (parked_del _ _ _ id G). fold mid in H. lia. }
     destruct (get_at_upd_other pn pp r inc tnp Hne Gp) as [tnp1 [Gp1 Tp1]].
-    pose proof (LEAVE _ _ S1m Gp1 Tp1) as S2.
+    pose proof (LEAVE _ _ S1m Gp1 Tp1) as [S2 VW2].
     assert (Kn : n_key (t_info (TN (inc inn) sgn fcn)) <> None).
     { simpl. intro K. apply Vn. apply Wnb. exact K. }
     destruct (deref_keeps (upd_t r pn inc) pp pn (TN (inc inn) sgn fcn) (get_at_upd _ _ inc _ _ _ Gn) Kn (not_eq_sym Hne))
       as [tn2 [G2 T2]].
-    destruct (node_deref (upd_t r pn inc) pp) as [r2 evs] eqn:ND. simpl in S2, G2.
+    destruct (node_deref (upd_t r pn inc) pp) as [r2 evs] eqn:ND. simpl in S2, G2, VW2.
     destruct (sf_ids _ _ _ S2) as [U2 _].
     pose proof (find_unique _ _ _ U2 G2) as F2. rewrite T2 in F2. simpl in F2. fold nid in F2. rewrite F2, G2.
-    eexists r2, _, _, evs. split; [reflexivity|].
+    eexists r2, _, _, evs. split; [reflexivity|]. split.
+    2:{ intro q. rewrite VW2. apply view_upd. intros. split; reflexivity. }
     destruct (SETP {| it_prefix := it_prefix it; it_n := Some nid; it_root := 0 |} PN eq_refl) as [A B].
     apply saf_arrive with (its := mid) (nid := nid) (pn := pn) (tn := tn2); auto.
     + rewrite T2. reflexivity.
@@ -124,9 +129,9 @@ Proof.
       replace (nid =? id) with false by (symmetry; apply Nat.eqb_neq; congruence). fold mid. lia.
     + unfold iters_set. rewrite parked_cons. fold mid. destruct (on_id nid _); lia.
   - (* the end: the iterator lets go of pp *)
-    pose proof (LEAVE r tnp WKm Gp eq_refl) as S2.
-    destruct (node_deref r pp) as [r1 evs]. simpl in S2.
-    eexists r1, _, _, evs. split; [reflexivity|].
+    pose proof (LEAVE r tnp WKm Gp eq_refl) as [S2 VW2].
+    destruct (node_deref r pp) as [r1 evs]. simpl in S2, VW2.
+    eexists r1, _, _, evs. split; [reflexivity|]. split; [|exact VW2].
     destruct (SETP {| it_prefix := it_prefix it; it_n := None; it_root := 0 |} PN eq_refl) as [A B].
     apply saf_weaken with (its := mid); auto;
       try (intros id _; unfold iters_set; rewrite parked_cons, on_id_none by reflexivity; fold mid; lia).
